@@ -116,12 +116,12 @@ func inspectRules(x *Ctx, g *ssa.Function) {
 	kMap, _ := x.kindConst("Kind_Map")
 	x.noPath("C06.R2", "signed-part-is-map", g, paths.WantSuccess, atoms(map[string]bool{eqs(fmt.Sprintf("const(%d)", kMap), "invoke["+dmNode+"Kind]("+sig+")"): false}), 0,
 		"Inspect fails unless element 1 of the envelope is a map")
-	fi := paths.Info(g)
-	if len(fi.Loops) != 1 {
-		x.C.Unresolved("C06.R2", "loop:Inspect", x.pos(g), fmt.Sprintf("expected one loop over the signed map, found %d", len(fi.Loops)))
+	ls := loopsIn(g)
+	if len(ls) != 1 {
+		x.C.Unresolved("C06.R2", "loop:Inspect", x.pos(g), fmt.Sprintf("expected one loop over the signed map, found %d", len(ls)))
 		return
 	}
-	l := fi.Loops[0]
+	l := ls[0].L
 	isH, isTag := eqs(`const("h")`, keyS), "call[strings.HasPrefix]("+keyS+`,const("ucan/"))`
 	x.mustBlock("C06.R2", "allowed-keys", g, l, atoms(map[string]bool{isH: false, isTag: false}), 0,
 		"an entry of the signed map whose key is neither \"h\" nor prefixed \"ucan/\" makes Inspect fail")
